@@ -22,8 +22,14 @@ kf    : a judged failure carries a known-finding tag ONLY IF the start was prist
         table values and differ only in WHICH value a handle denotes, so "implementation = heap model ≠ value spec"
         can only come from sharing; by `history_refines_partial` on the Linear prefix the first difference lies at or
         after the first linearity break.  The id is chosen by the step that FAILS (the first step at which the
-        implementation differs from value semantics): the cell that step reads in the heap model is a default
-        table's (C08-alias-default) or a table built by add / compromise / json (C08-receiver-mutated).
+        implementation differs from value semantics): C08-alias-default when a deep-copying GetCodonTable would
+        remove the failure (the copying-get model `hstepCopyGet` agrees with value semantics at that step),
+        C08-receiver-mutated when it would remain.
+repair: the implementation may follow any of THREE semantics — the heap model (today), the copying-get model (only
+        C08-alias-default repaired), value semantics (both repaired; a copying OptimizeTable is value semantics).
+        `corr` = it follows one of them; where that is not the heap model a known finding has been REPAIRED: the
+        difference from the heap model is drift (class suffix /kf-repaired), the judge passes where the trace is
+        value semantics, and only what still fails is tagged.  A trace that is none of the three is DIFF (+ FAIL).
         Anything else — unclean start, a failure on a Linear history, a non-Linear history on which the code
         also disagrees with the heap model, a malformed reply — is an ordinary FAIL.
 taint : the property constrains re-weighting results, their independence from other re-weightings and the pristine
@@ -68,6 +74,7 @@ def render (f : List String) : List String :=
   match f with
   | "hist" :: rest => "c08hist" :: rest
   | "conc" :: rest => "c08conc" :: rest
+  | "racectl" :: rest => "c08racectl" :: rest
   | _ => f
 
 def showObs : Obs → String
@@ -127,7 +134,7 @@ def valTaints (defs : List (Nat × Table)) (hist : List (Op Float)) : List Nat :
   go valStart [] hist
 
 /-- taint level of every step's observation in the HEAP run (per cell: a re-weighting cleans a level-1 cell for all its handles) -/
-def heapTaints (defs : List (Nat × Table)) (hist : List (Op Float)) : List Nat :=
+def heapTaints (step : HState → Op Float → HState) (defs : List (Nat × Table)) (hist : List (Op Float)) : List Nat :=
   let rec go (st : HState) (tc : List Nat) : List (Op Float) → List Nat
     | [] => []
     | op :: rest =>
@@ -139,7 +146,7 @@ def heapTaints (defs : List (Nat × Table)) (hist : List (Op Float)) : List Nat 
         match (st.handles[h1]?).bind (deref st.heap), (st.handles[h2]?).bind (deref st.heap) with
         | some t1, some t2 => if !inDomPair t1 t2 then 2 else if nan && hasNaN t1 t2 then 1 else 0
         | _, _ => 0
-      let st' := hstep cmpFloat st op
+      let st' := step st op
       let grew := st'.heap.length > st.heap.length
       -- (cells after the step, taint of what the step shows)
       let r : List Nat × Nat := match op with
@@ -174,21 +181,13 @@ def eqTrace (taint : List Nat) (a b : List Obs) : Bool :=
 def firstDiff (taint : List Nat) (a b : List Obs) : Nat :=
   (((a.zip b).zip taint).takeWhile fun p => obsEq p.2 p.1.1 p.1.2).length
 
-/-- the known finding that explains a failure at step `d` of `hist`: the cell that step reads in the heap model -/
-def kfId (defs : List (Nat × Table)) (hist : List (Op Float)) (d : Nat) : String :=
-  let hs := runHeapFrom cmpFloat (HState.init defs) (hist.take d)
-  let vs := (hist.take d).foldl (ValueTables.vstep addTable cmpFloat defs) valStart
-  let addr := fun (h : Nat) => ((hs.handles[h]?).map (·.aas)).getD defs.length
-  let differs := fun (h : Nat) => (hs.handles[h]?).bind (deref hs.heap) != vs.handles[h]?
-  let cell : Nat := match hist[d]? with
-    | some (.get id) => (ValueTables.indexOfId defs id).getD defs.length
-    | some (.reweight h _) => addr h
-    | some (.add h1 h2) => if differs h1 then addr h1 else addr h2
-    | some (.compromise h1 h2 _) => if differs h1 then addr h1 else addr h2
-    | some (.json h) => addr h
-    | some (.observe h) => addr h
-    | none => defs.length
-  if cell < defs.length then "C08-alias-default" else "C08-receiver-mutated"
+/-- the known finding that explains a failure at step `d` (the first step at which the implementation differs from
+value semantics): C08-alias-default when a deep-copying GetCodonTable would remove it (the copying-get model agrees
+with value semantics at that step), C08-receiver-mutated when it would remain -/
+def kfId (level : Nat) (copyObs valObs : Option Obs) : String :=
+  match copyObs, valObs with
+  | some c, some v => if obsEq level c v then "C08-alias-default" else "C08-receiver-mutated"
+  | _, _ => "C08-receiver-mutated"
 
 def judgeHist (ids : String) (toks : List String) (out : List String) : Verdict :=
   let idl := parseIds ids
@@ -203,24 +202,37 @@ def judgeHist (ids : String) (toks : List String) (out : List String) : Verdict 
       let shapeOk := vals.length == idl.length + hist.length && starts.all Option.isSome
       -- (a) pristine start, judged on what poly built (the harness only snapshots / restores)
       let cleanStart := shapeOk && reported.all fun p => isPristine p.1 p.2
-      -- steps whose observation carries int(NaN) weights in either semantics
-      let relax := ((valTaints reported hist).zip (heapTaints reported hist)).map fun p => max p.1 p.2
-      -- correspondence: heap model from the reported state
+      -- THREE semantics the implementation may follow: the heap model (today's sharing), the heap model with a
+      -- deep-copying GetCodonTable (a repair of C08-alias-default only), value semantics (both findings repaired)
+      let stepH := hstep cmpFloat
+      let stepG := hstepCopyGet cmpFloat
+      let tH := heapTaints stepH reported hist
+      let tG := heapTaints stepG reported hist
+      let tV := valTaints reported hist
+      let relax := ((tV.zip tH).zip tG).map fun p => max (max p.1.1 p.1.2) p.2
       let heapTrace := runHeap cmpFloat reported hist
-      let corr := shapeOk && eqTrace relax impl heapTrace
-      -- (b) value semantics from the same tables
+      let copyTrace := (hist.foldl stepG (HState.init reported)).trace
       let valTrace := ValueTables.runValue addTable cmpFloat reported hist
+      let isHeap := shapeOk && eqTrace relax impl heapTrace
+      let isCopy := shapeOk && eqTrace relax impl copyTrace
       let valOk := shapeOk && eqTrace relax impl valTrace
+      -- correspondence: the implementation is one of them.  Where it is not the heap model although value semantics
+      -- and the heap model differ, a known finding has been repaired: drift (`/kf-repaired`), not a disagreement
+      let corr := isHeap || isCopy || valOk
+      let repaired := corr && !isHeap
       let badReply := ((impl.zip relax).any fun p => p.1 == Obs.fault && p.2 != 2)
-      let oodDrift := shapeOk && !eqTrace (relax.map fun l => if l == 2 then 0 else l) impl heapTrace && corr
+      let exact := relax.map fun l => if l == 2 then 0 else l
+      let oodDrift := corr && !(eqTrace exact impl heapTrace || eqTrace exact impl copyTrace || eqTrace exact impl valTrace)
       let pass := cleanStart && valOk
       let lin := ValueTables.Linear reported hist
       let ascii := hist.all fun o => match o with | .reweight _ s => asciiStr s | _ => true
       let nrew := (hist.filter fun o => match o with | .reweight _ _ => true | _ => false).length
-      let known := !pass && cleanStart && !lin && corr
+      let known := !pass && cleanStart && !lin && (isHeap || isCopy)
       let cls := (if nrew == 0 then "triv:" else "") ++ "hist/"
         ++ (if lin then "linear" else "nonlinear") ++ (if ascii then "" else "/non-ascii")
-        ++ (if known then "/kf:" ++ kfId reported hist (firstDiff relax impl valTrace) else "")
+        ++ (if known then (let d := firstDiff relax impl valTrace
+                           "/kf:" ++ kfId ((relax[d]?).getD 0) copyTrace[d]? valTrace[d]?) else "")
+        ++ (if repaired then "/kf-repaired" else "")
         ++ (if badReply then "/bad-reply" else "")
         ++ (if !cleanStart then "/start-not-pristine" else "")
         ++ (if relax.any (· == 1) then "/nan" else "") ++ (if relax.any (· == 2) then "/ood" else "")
@@ -229,7 +241,7 @@ def judgeHist (ids : String) (toks : List String) (out : List String) : Verdict 
         ++ (if hist.any fun o => match o with | .reweight _ s => s.length % 3 != 0 | _ => false then "/frame" else "")
       let d := if corr && pass then "" else
         (if !cleanStart then "a reported default table is not the regenerated table with uniform weight 1; " else "") ++
-        (if !corr then "heap model differs at step " ++ toString (firstDiff relax impl heapTrace) ++ ": " ++
+        (if !corr then "none of heap model / copying-get model / value semantics; heap model differs at step " ++ toString (firstDiff relax impl heapTrace) ++ ": " ++
             ((heapTrace[firstDiff relax impl heapTrace]?).map showObs |>.getD "-") ++ " " else "") ++
         (if !valOk then "value spec differs at step " ++ toString (firstDiff relax impl valTrace) ++ ": " ++
             ((valTrace[firstDiff relax impl valTrace]?).map showObs |>.getD "-") else "")
@@ -263,12 +275,8 @@ def judgeConc (threads : List String) (out : List String) : Verdict :=
   let n := ths.length
   let distinct := decide (ths.map (·.1)).Nodup
   if !distinct then
-    -- CONTROL of the check's own machinery, generated only into the runs under the race detector: two goroutines on
-    -- the same id race by construction (known sharing).  The reply MUST be `race` (the detector killed the
-    -- process); anything else means the race runs prove nothing, and that is raised as a failure.
-    let raced := out.head? == some "race"
-    { corr := raced, judge := some raced, cls := "triv:ctl:conc-same-id/" ++ (out.head?.getD "missing"),
-      detail := if raced then "" else "race control did not come back as `race`: the race detector run is not functional" }
+    -- two goroutines on the same id race only through the known sharing: outside the property, not judged
+    { corr := true, judge := none, cls := "triv:conc-same-id/" ++ (out.head?.getD "missing"), detail := "" }
   else
   match out with
   | "ok" :: vals =>
@@ -285,7 +293,10 @@ def judgeConc (threads : List String) (out : List String) : Verdict :=
     let m := n + chains.1.length
     let modelFinals := (tr.drop m).take n
     let modelAfters := tr.drop (m + n)
-    let corr := shapeOk && finals == modelFinals && afters == modelAfters
+    -- what GetCodonTable shows afterwards: the leak (heap model) or, when the sharing has been repaired, the pristine tables
+    let pristineAfters := reported.map fun p => Obs.table p.2
+    let corr := shapeOk && finals == modelFinals && (afters == modelAfters || afters == pristineAfters)
+    let repaired := corr && afters != modelAfters
     -- value spec: a writer's result depends on its own last argument only; a reader always sees the pristine table
     let cleanStart := shapeOk && reported.all fun p => isPristine p.1 p.2
     let want := (ths.zip reported).map fun p =>
@@ -296,7 +307,8 @@ def judgeConc (threads : List String) (out : List String) : Verdict :=
         | none => p.2.2)
     let pass := cleanStart && finals == want
     let readers := (ths.filter fun th => th.2.isNone).length
-    { corr, judge := some pass, cls := "conc/threads" ++ toString n ++ "/readers" ++ toString readers ++ (if !cleanStart then "/start-not-pristine" else ""),
+    { corr, judge := some pass, cls := "conc/threads" ++ toString n ++ "/readers" ++ toString readers ++ (if !cleanStart then "/start-not-pristine" else "")
+             ++ (if repaired then "/kf-repaired" else ""),
       detail := if corr && pass then "" else "model finals: " ++ " | ".intercalate (modelFinals.map showObs) }
   | st :: _ => { corr := false, judge := some false, cls := "conc/" ++ st, detail := "implementation did not complete (data race report / crash)" }
   | [] => { corr := false, judge := some false, cls := "conc/missing", detail := "no reply" }
@@ -305,6 +317,13 @@ def judge (f out : List String) : Verdict :=
   match f with
   | "hist" :: ids :: toks => judgeHist ids toks out
   | "conc" :: threads => judgeConc threads out
+  | "racectl" :: _ =>
+    -- CONTROL of the check's own machinery, generated only into the runs under the race detector: two goroutines of
+    -- the HARNESS write one variable without synchronisation.  The reply MUST be `race` (the detector killed the
+    -- process); anything else means the race runs prove nothing, and that is raised as a failure.
+    let raced := out.head? == some "race"
+    { corr := raced, judge := some raced, cls := "triv:ctl:race/" ++ (out.head?.getD "missing"),
+      detail := if raced then "" else "race control did not come back as `race`: the race detector run is not functional" }
   | _ => { corr := false, judge := none, cls := "bad-case", detail := "bad case" }
 
 def driver : PropDriver := { render, judge }
